@@ -114,9 +114,12 @@ def plan(tier, seed):
     tasks.append({"name": name, "opt": name, "depth": d,
                   # quick: fresh-process resume for three optimizers at crash
                   # points 0 and 1; thorough: all optimizers, points 0, 1, T
-                  "cross_process": (tier != "quick" or name in (
-                      "ds_full", "ds_sharded", "tf_sketchy",
-                      "ds_full_x64late")),
+                  # (optimizers compared with a tolerance are not hashed
+                  # across processes)
+                  "cross_process": not opts.get("tol") and (
+                      tier != "quick" or name in (
+                          "ds_full", "ds_sharded", "tf_sketchy",
+                          "ds_full_x64late")),
                   "cross_points": [0, 1] if tier == "quick" else [0, 1, d],
                   "profile": dict({"x64": bool(opts.get("x64"))},
                                   **({"x64_late": True}
